@@ -66,6 +66,15 @@ def oracle(ctx, prog, sched, cl, raw):
         if (m.group(1) == '0') != (left == 0): return 'cds_lfq_destroy_rcu returned %s with %d user nodes left' % (m.group(1), left)
     return None
 
+def two_dummy_cases():
+    out = []
+    # two dequeuers suspended where each has seen the same last node and is about to append a dummy, enqueues in between: the queue ends as dummy, user node, dummy -
+    # cds_lfq_destroy_rcu() at quiescence must still refuse (the end-of-run oracle compares its answer with the nodes left)
+    for k1 in range(4, 20):
+        for k2 in range(1, 12):
+            out.append(('E0E1E2/D/D', '>0' + '1' * k1 + '2' * k2 + '>0>1>0>2'))
+    return out
+
 def gen_schedules(ctx, n):
     out = [c for c in corpus('C12') if len(c) == 2]
     for prog in PROGS[:3 if ctx.quick() else len(PROGS)]:
@@ -90,6 +99,8 @@ def run(ctx):
         cases = gen_schedules(ctx, 400 if ctx.quick() else 6000)
         corr_schedules(ctx, 'Lfq.v vs static/rculfqueue.h', impl, model, cases, canon_c,
                        oracle=lambda p, s, cl, raw: oracle(ctx, p, s, cl, raw), nontrivial=contended, tail='012345' * 150, scenario='scen_lfq')
+        corr_schedules(ctx, 'rculfqueue destroy at quiescence with several dummy nodes', impl, None, two_dummy_cases(), canon_c,
+                       oracle=lambda p, s, cl, raw: oracle(ctx, p, s, cl, raw), nontrivial=contended, tail='012345' * 150, scenario='scen_lfq (oracle only)')
     pimpl = build_scenario(ctx, 'scen_lfq_plain', 'scen_lfq.c', plain=True)     # plain stores (node initialisation) as scheduling points: oracle only
     if pimpl and impl:
         corr_schedules(ctx, 'rculfqueue with instrumented plain stores', pimpl, None, cases[::3 if ctx.quick() else 2], canon_c,
